@@ -104,3 +104,30 @@ size_t fixed_bounded(const char *src, size_t n, size_t at)
 }
 
 }
+
+// bulk access through a (ptr, size) buffer: whole groups of 3 are guaranteed, 4 bytes are fetched
+namespace verif_probe {
+
+std::uint32_t bulk_overread(const std::uint8_t *in, std::size_t len)
+{
+    std::uint32_t acc = 0;
+    for (std::size_t r = 0; r + 3 <= len; r += 3) {
+        std::uint32_t group = 0;
+        std::memcpy(&group, in + r, sizeof(group));
+        acc ^= group;
+    }
+    return acc;
+}
+
+std::uint32_t bulk_exact(const std::uint8_t *in, std::size_t len)
+{
+    std::uint32_t acc = 0;
+    for (std::size_t r = 0; r + 3 <= len; r += 3) {
+        std::uint32_t group = 0;
+        std::memcpy(&group, in + r, 3);
+        acc ^= group;
+    }
+    return acc;
+}
+
+}
